@@ -21,6 +21,9 @@ ASSUMPTIONS = {
     "A-singleton": "the module-level singleton state is only touched under _executor_lock and satisfies its representation invariant at entry (re-established by every "
                    "return of the factory: induction over calls)",
     "A-yield": "while a polling loop sleeps, other threads change only the shared state named at the yield point",
+    "A-progress": "eventual guarantees of the manager thread and the workers that the polling loops rely on: every pending job is eventually resolved; workers that "
+                  "were sent a sentinel or time out leave the worker table; eventually every worker still in the table is running or the pool is flagged broken "
+                  "(for workers the manager thread watches, i.e. it was woken after they were registered)",
     "A-monitor": "an Event's flag semaphore holds 0 or 1 whenever its condition's lock is acquired",
     "A-spawn": "queues do not send objects while a process object is being pickled for launch",
     "A-fds": "descriptors recorded in a Popen's keep list are open descriptors of this process",
@@ -219,7 +222,8 @@ PROPS["C02"] = dict(
     proved="sequential step contracts of the manager: the wait set contains the result reader, the wake-up reader and every registered worker's sentinel; every "
            "outcome of wait()/recv() is classified as the property says (dead worker => TerminatedWorkerError, a BrokenProcessPool, with the exit codes); "
            "terminate_broken flags first, fails every pending future with that very error, fabricates no result, kills and reaps every worker tree and joins the "
-           "internals; run() leaves its loop on `broken` only through terminate_broken; submit re-raises the stored error before touching anything.",
+           "internals; run() leaves its loop on `broken` only through terminate_broken; submit re-raises the stored error before touching anything; whoever registers workers from outside the manager thread wakes it afterwards, so "
+           "that their sentinels enter the wait set; a pending future already cancelled by its owner does not stop terminate_broken.",
     not_covered="that a death at every instant of a worker's life surfaces as 'sentinel ready, no result, no wake-up' (A-kernel, schedules); interleavings with "
                 "the feeder and user threads (A-atomic); futures already resolved are untouched only in the sense that no set_result/other set_exception occurs.",
     assumptions=["A-atomic", "A-kernel", "A-alias", "A-pids", "A-posix"],
@@ -569,11 +573,12 @@ PROPS["C10"] = dict(
     proved="_resize: rejects None before anything happens; same size or never-started executor: only the size is recorded; otherwise waits for every pending job "
            "(returns from the wait only with an empty pending table), then under the management lock records the new size and posts exactly one None sentinel per "
            "worker found alive above the new size (never more), then polls, then tops up through _adjust_process_count (which keeps every registered worker and "
-           "starts the missing ones, C08) and awaits at least the requested number of workers; submit and _resize run under the same submit/resize lock (the base "
+           "starts the missing ones, C08), wakes the manager thread so that it watches the new workers, and polls the *current* worker table until every registered worker is "
+           "alive or the pool is broken (each of the three polling loops exits under a declared eventual guarantee of the other threads); submit and _resize run under the same submit/resize lock (the base "
            "submit is only reached holding it); the lock is released on every exit.",
-    not_covered="termination of the three polling loops and everything that depends on what other threads do while they sleep (interference is modelled as arbitrary "
-                "change of the shared tables at each sleep, A-yield); that the kept workers are the previous processes as observed by pid; results of tasks submitted "
+    not_covered="termination of the polling loops beyond 'each loop's test is false once the environment's declared eventual guarantee holds' (A-progress; "
+                "interference is modelled as arbitrary change of the shared tables at each sleep, A-yield); that the kept workers are the previous processes as observed by pid; results of tasks submitted "
                 "before the resize (C03 routing is per task and unaffected by the size).",
-    assumptions=["A-yield", "A-atomic", "A-pids", "A-posix"],
+    assumptions=["A-yield", "A-progress", "A-atomic", "A-pids", "A-posix"],
     abstractions=EXEC_ABS + ["interference at declared yield points (time.sleep in polling loops): the shared state named there is havocked"],
 )
